@@ -314,14 +314,22 @@ func scanForbiddenCalls(P *Program, sp ScanSpec) []*OblResult {
 					continue
 				}
 				f := cc.StaticCallee()
-				if f == nil || f.Pkg == nil {
+				if f == nil {
 					continue
 				}
-				full := f.Pkg.Pkg.Path() + "." + f.Name()
+				fpkg := f.Pkg
+				if fpkg == nil && f.Origin() != nil {
+					fpkg = f.Origin().Pkg // an instance of a generic function belongs to no package itself
+				}
+				if fpkg == nil {
+					continue
+				}
+				full := fpkg.Pkg.Path() + "." + f.Name()
 				if recv := f.Signature.Recv(); recv != nil {
-					full = f.Pkg.Pkg.Path() + ".(" + recvTypeName(recv.Type()) + ")." + f.Name()
+					full = fpkg.Pkg.Path() + ".(" + recvTypeName(recv.Type()) + ")." + f.Name()
 					full = strings.Replace(full, "(*", "(", 1)
 				}
+				full = stripTypeArgs(full) // instances of generic functions by their generic name
 				for _, p := range pats {
 					if full == p || (strings.HasSuffix(p, ".") && strings.HasPrefix(full, p)) {
 						caller := CanonName(fn)
@@ -815,3 +823,89 @@ func stripTypeArgs(n string) string {
 	}
 	return n
 }
+
+// member_users: the field or method called Args[names] (comma separated) of a type of package
+// Args[pkg] is read / called -- statically or through an interface -- only in the functions of List
+// (generated *.pb.go accessors aside). Used where a statement rests on "nothing but X looks at this
+// field" (C11: the event nonce of a claim is in no hash, so it must have no effect).
+func scanMemberUsers(P *Program, sp ScanSpec) []*OblResult {
+	pkgPath := ModPath + "/" + sp.Args["pkg"]
+	names := map[string]bool{}
+	for _, n := range strings.Split(sp.Args["names"], ",") {
+		if n = strings.TrimSpace(n); n != "" {
+			names[n] = true
+		}
+	}
+	found := map[string]bool{}
+	seen := false
+	inPkg := func(p *types.Package) bool { return p != nil && p.Path() == pkgPath }
+	for fn := range ssautil.AllFunctions(P.SSA) {
+		if fn.Synthetic != "" && !strings.HasPrefix(fn.Synthetic, "instance") {
+			continue
+		}
+		file := ""
+		if fn.Pos().IsValid() && P.Fset != nil {
+			file = P.Fset.Position(fn.Pos()).Filename
+		}
+		if strings.HasSuffix(file, ".pb.go") || strings.HasSuffix(file, "_test.go") {
+			continue
+		}
+		for _, b := range fn.Blocks {
+			for _, in := range b.Instrs {
+				hit := false
+				switch x := in.(type) {
+				case *ssa.FieldAddr:
+					if pt, ok := x.X.Type().Underlying().(*types.Pointer); ok {
+						if st, ok := pt.Elem().Underlying().(*types.Struct); ok && names[st.Field(x.Field).Name()] && inPkg(st.Field(x.Field).Pkg()) {
+							hit = true
+						}
+					}
+				case *ssa.Field:
+					if st, ok := x.X.Type().Underlying().(*types.Struct); ok && names[st.Field(x.Field).Name()] && inPkg(st.Field(x.Field).Pkg()) {
+						hit = true
+					}
+				case ssa.CallInstruction:
+					cc := x.Common()
+					if cc.IsInvoke() {
+						if names[cc.Method.Name()] && inPkg(cc.Method.Pkg()) {
+							hit = true
+						}
+					} else if f := cc.StaticCallee(); f != nil && names[f.Name()] && f.Pkg != nil && inPkg(f.Pkg.Pkg) && f.Signature.Recv() != nil {
+						hit = true
+					}
+				}
+				if hit {
+					seen = true
+					found[CanonName(fn)] = true
+				}
+			}
+		}
+	}
+	_ = seen
+	want := map[string]bool{}
+	for _, w := range sp.List {
+		want[w] = true
+	}
+	var extra, missing []string
+	for f := range found {
+		if !want[f] {
+			extra = append(extra, f)
+		}
+	}
+	for w := range want {
+		if !found[w] {
+			missing = append(missing, w)
+		}
+	}
+	sort.Strings(extra)
+	sort.Strings(missing)
+	if len(extra) > 0 {
+		return []*OblResult{scanResult(sp.Name, "F8", false, fmt.Sprintf("%s of %s is also used in %v (census lists %v)", sp.Args["names"], sp.Args["pkg"], extra, sp.List))}
+	}
+	if len(missing) > 0 {
+		return []*OblResult{scanResult(sp.Name, "F8", false, fmt.Sprintf("%s of %s is no longer used in %v", sp.Args["names"], sp.Args["pkg"], missing))}
+	}
+	return []*OblResult{scanResult(sp.Name, "F8", true, fmt.Sprintf("users of %s: %v", sp.Args["names"], sp.List))}
+}
+
+func init() { scanKinds["member_users"] = scanMemberUsers }
